@@ -24,7 +24,7 @@ def t1(sx, hr, size, prefix, rsv, oldlens, lens, long):
 
 
 def t3(sx, nbr, nbw, nmaxb, oldlens, lens, emulated):
-    oldlen = sx.pick("oldlen", oldlens)
+    oldlen = sx.pick("oldlen", [o for o in oldlens if o <= nmaxb * 16])
     w = worlds.T3World(sx, nbr, nbw, nmaxb, oldlen, emulated=emulated)
     n = sx.pick("n", [x for x in lens_for(w.cap, lens) if x <= w.cap])
     return ndefflow.cutflow(sx, w, n)
